@@ -235,6 +235,12 @@ def smbo_stage(chk, r, n, constraint_p=0.4, nonfinite_p=0.3):
     for name in loc.SMBO3:
         for _ in range(n):
             sps.append(bkgen.scenario(r, name, constraint_p=constraint_p, nonfinite_p=nonfinite_p))
+        # the start-up paths without any finite score (empty training set: Forest's move_random inside _training, Lipschitz's empty
+        # cdist, the training-failure fallback) are rare under the general generator: a few scenarios aimed at them
+        for _ in range(max(2, n // 3)):
+            sp = bkgen.scenario(r, name, constraint_p=constraint_p, nonfinite_p=1.0)
+            sp["initialize"] = {"random": r.choice([1, 1, 2])}
+            sps.append(sp)
     dis, keys, samples = [], set(), []
     k = 0
     for i in range(0, len(sps), 30):
